@@ -1128,3 +1128,63 @@ class _Metric:
                              inplace=False)
         return [s.get_energy(ctx.arr(a['cx']), axis=-1),
                 s.get_variance_for_zero_mean_signal(ctx.arr(a['cx']))]
+
+
+@entry('metric.wrapper', weight=1, group='metric')
+class _MetricWrapper:
+    """InputMetrics of pb_bss.evaluation.wrapper (the parts that need no
+    optional dependency): invasive SXR and SI-SDR; a fresh metrics object per
+    call, queried twice (its cached properties must not change anything)."""
+    @staticmethod
+    def gen(g):
+        K, D, T = g.K(), int(g.choice([1, 2, 3])), int(g.choice([16, 40]))
+        return {'obs': g.arr('normal', [D, T], dtype='float64'),
+                'src': g.arr('normal', [K, T], dtype='float64'),
+                'img': g.arr('normal', [K, D, T], dtype='float64'),
+                'noise': g.arr('normal', [D, T], dtype='float64'),
+                'which': g.choice(['invasive_sxr', 'invasive_sdr', 'si_sdr',
+                                   'names'])}
+
+    @staticmethod
+    def run(ctx, a):
+        from pb_bss.evaluation.wrapper import InputMetrics
+        m = InputMetrics(ctx.arr(a['obs']), ctx.arr(a['src']),
+                         speech_image=ctx.arr(a['img']),
+                         noise_image=ctx.arr(a['noise']), sample_rate=8000,
+                         enable_si_sdr=True)
+        if a['which'] == 'names':
+            return [list(m._available_metric_names()),
+                    list(m._disabled_metric_names())]
+        first = m[a['which']]
+        second = getattr(m, a['which'])
+        return [first, second]
+
+
+@entry('bf.utils', weight=1, group='beamformer')
+class _BfUtils:
+    @staticmethod
+    def gen(g):
+        K, D = g.K(), g.D()
+        return {'which': g.choice(['steering', 'steering_norm', 'diffuse',
+                                   'tdoa', 'tof']),
+                'tdoa': g.arr('uniform', [K, D], low=-1e-3, high=1e-3),
+                'dist': g.arr('uniform', [D, D], low=0.01, high=0.3),
+                'src': g.arr('normal', [3, K]),
+                'sensors': g.arr('normal', [3, D])}
+
+    @staticmethod
+    def run(ctx, a):
+        from pb_bss.extraction import beamform_utils as u
+        w = a['which']
+        if w == 'steering':
+            return u.get_steering_vector(ctx.arr(a['tdoa']), stft_size=32)
+        if w == 'steering_norm':
+            return u.get_steering_vector(ctx.arr(a['tdoa']), stft_size=32,
+                                         normalize=True)
+        if w == 'diffuse':
+            return u.get_diffuse_noise_psd(ctx.arr(a['dist']), fft_size=32)
+        if w == 'tof':
+            return u.get_nearfield_time_of_flight(ctx.arr(a['src']),
+                                                  ctx.arr(a['sensors']))
+        return u.get_farfield_time_difference_of_arrival(
+            ctx.arr(a['src']), ctx.arr(a['sensors']))
